@@ -6,6 +6,14 @@ ROOT = "/verif"
 
 # id -> dict(engine, category, text, note, technique, design_ref)
 CHECKS = {
+    "C09": dict(
+        engine="comp",
+        category="exploration",
+        technique="model-based history testing (proptest) of the send buffer against a per-byte colour model, with complete enumeration of short histories and a colour-map hook for step-exact comparison",
+        text="Histories of write / window extension / pick-up with arbitrary limits / ack / loss (exact picked ranges, sub-ranges, acks after loss, repeated acks, loss after ack) / resend_flighting / 0-RTT forget_sent_state run on the real SendBuf, on CryptoStreamOutgoing through a recording packet buffer, and on a real stream sender through DataStreams; after every op the observable state (and with the hook the full colour map) equals the model: offered bytes were never-sent or lost and inside the window, data equals what was written, 'fresh' exactly on first offer, lowest offerable byte first, no starvation, completion exactly when all is acknowledged, FIN handling. Every history over a 16-op alphabet up to depth 6 (quick) / 7 (thorough) + 280k / 19M random histories.",
+        note="Loss/ack reports only name ranges that were previously offered (what the sent-packet journal can report), except in the 'relaxed' stage. Pick maximality is not required. The colour-map hook is read-only; the check still runs through the public API when it is absent.",
+        design_ref="DESIGN.md §3 C09",
+    ),
     "C02": dict(
         engine="e2e",
         category="fault_enumeration",
